@@ -19,10 +19,20 @@
   * A deferred family is *held* until the first step after which no pair of `waiting` names it;
     at that step it is *released*.  Released is final (the "exactly once" of the statement is
     read per restart, DESIGN §4.0).
-  * Histories in the property's domain: an End-of-RIB comes from a peer with an established
-    session that negotiated graceful restart; the timer fires only after it was started (first
-    helper established with GR), with a configured duration, and while something is still waited
-    for.  From the first event outside this domain on, nothing is demanded.
+  * The Selection_Deferral_Timer is started when the first helper establishes with graceful
+    restart while still waited for (RFC 4724 §4.1), with the configured duration
+    (`stale-routes-time`: absent = 360 s, 0 = disabled), and runs until nothing is waited for.
+    The step that starts it asks for it once (`StartDeferralTimer`), no other step does.
+  * The restarting flag (`Global.selection_deferral` installed; it is what the R-bit of OPEN is
+    derived from) is set exactly while something is waited for; a machine that reports
+    `Completed` is never left installed.
+  * The start-up step sets the deferral flag of every deferred family and installs the machine.
+  * Histories in the property's domain (`wf`): excluded are only the impossible ones: an
+    End-of-RIB from a helper that is still waited for but has no established GR session, and a
+    timer expiry while helpers are waited for although the timer was never started (or is
+    disabled).  An End-of-RIB from a peer nobody waits for and a stale timer expiry when nothing
+    is waited for are ordinary events; they must change nothing.  From the first excluded event
+    on, nothing is demanded.
 -/
 import Rbgp.Gr.Restarting.Model
 namespace Rbgp.Gr.Restarting.Spec
@@ -35,6 +45,8 @@ structure R where
   /-- established sessions: peer ↦ GR families negotiated on it -/
   up : List (Peer × List Fam) := []
   started : Bool := false
+  /-- the selection-deferral timer is running -/
+  timer : Bool := false
   /-- announced paths currently in the RIB: (family, prefix, peer) -/
   rib : List (Fam × Nat × Peer) := []
   deriving DecidableEq, Repr, Inhabited
@@ -54,10 +66,21 @@ def held (r : R) (f : Fam) : Bool := r.deferred.contains f && !r.released.contai
 
 def upFams (r : R) (p : Peer) : Option (List Fam) := (r.up.find? (fun e => e.1 = p)).map (·.2)
 
-/-- Is the event inside the property's domain in this situation? -/
+/-- the configured Selection_Deferral_Timer (`stale-routes-time`): absent = 360 s, 0 = disabled -/
+def effDur : Option Nat → Option Nat
+  | none => some 360
+  | some 0 => none
+  | some n => some n
+
+/-- Is the event possible in this situation?  Impossible are only: an End-of-RIB from a helper that
+    is still waited for but has no established GR session, and a timer expiry while helpers are
+    still waited for although the timer was never started (or is disabled).  An End-of-RIB from a
+    peer nobody waits for, and a (stale) timer expiry when nothing is waited for, are ordinary
+    events that must change nothing. -/
 def wf (cfg : Cfg) (r : R) : Ev → Bool
-  | .rd (.eor p _) => match upFams r p with | some fs => !fs.isEmpty | none => false
-  | .rd .timer => r.started && cfg.dur.isSome && !r.waiting.isEmpty
+  | .rd (.eor p _) =>
+      !tracked r p || (match upFams r p with | some fs => !fs.isEmpty | none => false)
+  | .rd .timer => r.waiting.isEmpty || (r.started && (effDur cfg.dur).isSome)
   | _ => true
 
 /-- the reference bookkeeping (who is waited for, which sessions are up, which routes are in) -/
@@ -98,12 +121,25 @@ def exactRelease (rib : List (Fam × Nat × Peer)) (f : Fam) (changes : List Cha
   let cs := changes.filter (·.fam = f)
   let mine := rib.filter (·.1 = f)
   distinct (cs.map (·.pfx))
-  && cs.all (fun c => sameSet c.peers ((mine.filter (·.2.1 = c.pfx)).map (·.2.2)) && !c.peers.isEmpty)
+  && cs.all (fun c => sameSet c.peers ((mine.filter (·.2.1 = c.pfx)).map (·.2.2)) && !c.peers.isEmpty
+                      && c.kind = .adv)
   && mine.all (fun e => cs.any (·.pfx = e.2.1))
 
-/-- Check one observed step; `r` before, `r'` after (already computed by `next`). -/
-def stepOk (ev : Option Ev) (r r' : R) (o : Obs) : Except String Unit :=
+def isStartTimer : ROut → Bool
+  | .startTimer _ => true
+  | _ => false
+
+/-- is the selection-deferral timer running after the step that leads from `r` to `r'`?  It is started
+    when the first helper establishes with graceful restart (unless disabled) and stopped when
+    nothing is waited for any more. -/
+def timerAfter (cfg : Cfg) (r r' : R) : Bool :=
+  !r'.waiting.isEmpty && (r.timer || (!r.started && r'.started && (effDur cfg.dur).isSome))
+
+/-- Check one observed step; `r` before, `r'` after (already computed by `next`); `ev = none` is
+    the start-up step. -/
+def stepOk (cfg : Cfg) (ev : Option Ev) (r r' : R) (o : Obs) : Except String Unit :=
   let rel := releasedNow r r'
+  let startedNow := !r.started && r'.started
   if o.changes.any (fun c => held r c.fam && !rel.contains c.fam) then .error "change-while-deferred"
   else if r.deferred.any (fun f => held r f && !rel.contains f && (!o.flags.contains f || mentions o.outs f)) then
     .error "released-early"
@@ -115,7 +151,13 @@ def stepOk (ev : Option Ev) (r r' : R) (o : Obs) : Except String Unit :=
   else if o.pending.any (fun e => !tracked r' e.1 || e.2.isEmpty) then .error "nongr-in-pending"
   else if (o.tag = .awaiting || o.tag = .deferring) && o.pending.isEmpty then .error "stuck-deferring"
   else if r'.waiting.isEmpty && (o.tag = .awaiting || o.tag = .deferring || o.installed) then
-    .error "stuck-deferring"
+    .error "not-completed"
+  else if o.tag = .completed then .error "completed-still-installed"
+  else if !r'.waiting.isEmpty && (o.tag = .absent || !o.installed) then .error "machine-gone-while-waited"
+  else if o.outs.filter isStartTimer ≠ (if startedNow then [.startTimer (effDur cfg.dur)] else []) then
+    .error "timer-start"
+  else if o.timer ≠ timerAfter cfg r r' then .error "timer-armed"
+  else if ev.isNone && r'.deferred.any (fun f => !o.flags.contains f) then .error "startup-not-deferred"
   else .ok ()
 
 inductive Verdict where
@@ -129,10 +171,10 @@ def checkFrom (cfg : Cfg) (r : R) (i : Nat) : List Ev → List Obs → Verdict
       if !wf cfg r e then .ok     -- outside the property's domain from here on
       else
         let r1 := next r e
-        match stepOk (some e) r r1 o with
+        match stepOk cfg (some e) r r1 o with
         | .error c => .fail i c
         | .ok _ =>
-            let r2 := { r1 with released := r1.released ++ releasedNow r r1 }
+            let r2 := { r1 with released := r1.released ++ releasedNow r r1, timer := timerAfter cfg r r1 }
             checkFrom cfg r2 (i + 1) es os
   | _, _ => .fail i "trace-length"
 
@@ -141,7 +183,7 @@ def check (cfg : Cfg) (evs : List Ev) : List Obs → Verdict
   | [] => .fail 0 "trace-length"
   | o :: os =>
       let r := init cfg
-      match stepOk none {} r o with
+      match stepOk cfg none {} r o with
       | .error c => .fail 0 c
       | .ok _ => checkFrom cfg r 1 evs os
 
